@@ -63,14 +63,18 @@ theorem pool_has_true {pool : Pool} {c : Commit} (h : pool.has c = true) :
   · obtain ⟨d, hd, hh⟩ := hasCommit_true h
     exact ⟨d, List.mem_append.mpr (Or.inr hd), hh⟩
 
-theorem pool_add_all (pool : Pool) (c : Commit) : (pool.add c).all = pool.all ++ [c] := by
-  simp only [Pool.add, Pool.all, List.append_assoc]
+theorem pool_add_all {pool : Pool} {c : Commit} (hn : pool.has c = false) : (pool.add c).all = pool.all ++ [c] := by
+  simp only [Pool.add, hn, Bool.false_eq_true, if_false, Pool.all, List.append_assoc]
+
+/-- a commit that is already pooled is not added again (`Pool.Add` checks and inserts in one step) -/
+theorem pool_add_of_has {pool : Pool} {c : Commit} (h : pool.has c = true) : pool.add c = pool := by
+  simp only [Pool.add, h, if_true]
 
 /-- adding an `EntryOk` commit that `Pool.has` does not find preserves the invariant -/
 theorem poolInv_add {ctx : BlockCtx} {chainId : Nat} {pool : Pool} {c : Commit} (h : PoolInv ctx chainId pool)
     (hc : EntryOk ctx chainId c) (hn : pool.has c = false) : PoolInv ctx chainId (pool.add c) := by
   unfold PoolInv
-  rw [pool_add_all]
+  rw [pool_add_all hn]
   refine ⟨?_, ?_⟩
   · intro d hd
     rcases List.mem_append.mp hd with hd | hd
@@ -135,9 +139,9 @@ theorem scvOne_inv {st : State} {ctx : BlockCtx} {pool : Pool} (m : Incoming) (h
 theorem scvOne_mem (st : State) (pool : Pool) (m : Incoming) :
     ∀ c ∈ (scvOne st pool m).1.all, c ∈ pool.all ∨ (VerifiedOnChain st c ∧ m.wf = true ∧ c = m.commit) := by
   intro c hc
-  rcases (scvOne_spec st pool m).1 with h1 | ⟨h1, hok, hwf, _⟩
+  rcases (scvOne_spec st pool m).1 with h1 | ⟨h1, hok, hwf, hn⟩
   · rw [h1] at hc; exact Or.inl hc
-  · rw [h1, pool_add_all] at hc
+  · rw [h1, pool_add_all hn] at hc
     rcases List.mem_append.mp hc with hc | hc
     · exact Or.inl hc
     · have := List.mem_singleton.mp hc
@@ -201,9 +205,9 @@ theorem certifyAt_inv {st : State} {ctx : BlockCtx} {pool : Pool} (h addr sk : N
 theorem certifyAt_mem (st : State) (pool : Pool) (h addr sk : Nat) :
     ∀ c ∈ (certifyAt st pool h addr sk).1.all, c ∈ pool.all ∨ (CertEntry st addr sk c ∧ c.height = h) := by
   intro c hc
-  rcases certifyAt_spec st pool h addr sk with h1 | ⟨c', h1, hc', hh, _⟩
+  rcases certifyAt_spec st pool h addr sk with h1 | ⟨c', h1, hc', hh, hn⟩
   · rw [h1] at hc; exact Or.inl hc
-  · rw [h1, pool_add_all] at hc
+  · rw [h1, pool_add_all hn] at hc
     rcases List.mem_append.mp hc with hc | hc
     · exact Or.inl hc
     · rw [List.mem_singleton.mp hc]; exact Or.inr ⟨hc', hh⟩
